@@ -154,6 +154,17 @@ def one(sh, case, driver='generated'):
                 bm.load(df, case['sig'], case['fs'], tuple(case['f_range']))
                 bm.recompute_edges(r)
                 res = bm.df_features
+                if case.get('twice'):
+                    # a second recomputation on the same object: again the object's thresholds lowered by r (not by 2r), applied to
+                    # the table the object holds now
+                    held = res.copy(deep=True)
+                    bm.recompute_edges(r)
+                    exp2 = recompute_edges(held.copy(deep=True), red)
+                    attach.count('C16:second_recomputation_on_the_object')
+                    d2 = poollog.tables_equal(bm.df_features, exp2)
+                    if d2 is not None:
+                        vs.append({'mechanism': 'second-recomputation-not-thresholds-minus-r',
+                                   'message': 'second Bycycle.recompute_edges(%r) differs from recompute_edges(held table, thresholds - r): %s' % (r, d2)})
             else:
                 res = recompute_edges(df, red)
         except ValueError as e:
@@ -243,7 +254,7 @@ def run(sh):
                    min_n_cycles=int(rng.choice([1, 2, 3])))
         case = {'sig': sig, 'fs': fs, 'f_range': (lo, hi), 'center': str(rng.choice(['peak', 'trough'])), 'thr': thr,
                 'reduction': float(rng.choice([0, 0, .05, .1, .2])), 'api': 'func' if rng.random() < 0.75 else 'obj', 'family': fam,
-                'index': [None, None, None, 'offset', 'gaps'][int(rng.integers(0, 5))]}
+                'index': [None, None, None, 'offset', 'gaps'][int(rng.integers(0, 5))], 'twice': bool(rng.random() < 0.5)}
         one(sh, case)
         if it % 10 == 0:
             rows = [gen.gen_signal(rng, fs, lo, hi, 3.0, 'bursty')[0][:int(3 * fs) - 2] for _ in range(3)]
